@@ -40,6 +40,12 @@ class _Watchdog(Exception):
     pass
 
 
+def _alarm_off():
+    import signal
+
+    signal.alarm(0)
+
+
 def _alarm(sec):
     import signal
 
@@ -54,6 +60,8 @@ def _run_one(args):
     name, timeout_ms = args
     load_contracts()
     t0 = time.time()
+    if os.environ.get("PYVC_SELFTEST_CRASH") == name:  # self-test of the pool: this worker dies abruptly
+        os.kill(os.getpid(), 11)
     _alarm(600 if timeout_ms <= 10000 else 3600)
     try:
         r = run_unit(UNITS[name], timeout_ms=timeout_ms)
@@ -62,6 +70,8 @@ def _run_one(args):
         return name, {"unit": name, "status": "unsupported", "message": str(e), "sites": {}, "paths": 0, "time_s": time.time() - t0, "functions": {}, "props": UNITS[name].props}
     except BaseException as e:  # noqa
         return name, {"unit": name, "status": "error", "message": f"{type(e).__name__}: {e}\n{traceback.format_exc()[-1200:]}", "sites": {}, "paths": 0, "time_s": time.time() - t0, "functions": {}, "props": UNITS[name].props}
+    finally:
+        _alarm_off()
 
 
 def _run_native(args):
@@ -82,6 +92,72 @@ def _run_native(args):
         return name, {"status": "timeout", "message": str(e), "cases": 0, "failures": [], "time_s": round(time.time() - t0, 2)}
     except BaseException as e:  # noqa
         return name, {"status": "error", "message": f"{type(e).__name__}: {e}\n{traceback.format_exc()[-1500:]}", "cases": 0, "failures": [], "time_s": round(time.time() - t0, 2)}
+    finally:
+        _alarm_off()
+
+
+def _died(kind, name, why):
+    if kind == "unit":
+        return {"unit": name, "status": "error", "message": why, "sites": {}, "paths": 0, "time_s": 0.0, "functions": {}, "props": UNITS[name].props if name in UNITS else []}
+    return {"status": "error", "message": why, "cases": 0, "failures": [], "time_s": 0.0}
+
+
+def _kill_workers(ex):
+    """shut the executor down without waiting for a stuck worker (its processes are killed)"""
+    procs = list(getattr(ex, "_processes", {}).values()) if getattr(ex, "_processes", None) else []
+    ex.shutdown(wait=False, cancel_futures=True)
+    for p_ in procs:
+        try:
+            if p_.is_alive():
+                p_.kill()
+        except Exception:  # noqa
+            pass
+
+
+def _run_all(jobs, nat_jobs, tier):
+    """all units and native checks in a process pool that cannot hang: a worker that dies (crash in a solver
+    library, kill) breaks the pool instead of losing its task silently; whatever has no result then is re-run in
+    isolation, one fresh process per task, and a second death is reported as a checker error for that task only.
+    Every wait has a deadline beyond the per-task watchdog."""
+    import concurrent.futures as cf
+
+    tasks = [("unit", j[0], j) for j in jobs] + [("native", j[0], j) for j in nat_jobs]
+    fn = {"unit": _run_one, "native": _run_native}
+    out = {"unit": {}, "native": {}}
+    limit = (700 if tier == "quick" else 3700)
+    pending = list(tasks)
+
+    def harvest(ex, futs, deadline):
+        for fut, (kind, name, _) in futs.items():
+            try:
+                n_, r_ = fut.result(timeout=max(1.0, deadline - time.time()))
+                out[kind][name] = r_
+            except cf.TimeoutError:
+                pass
+            except Exception:  # BrokenProcessPool and friends: decided in the isolated re-run
+                pass
+
+    ex = cf.ProcessPoolExecutor(max_workers=max(1, min(16, len(tasks))))
+    try:
+        futs = {ex.submit(fn[k], j): (k, n, j) for (k, n, j) in pending}
+        harvest(ex, futs, time.time() + limit + 60)
+    finally:
+        _kill_workers(ex)
+    pending = [(k, n, j) for (k, n, j) in tasks if n not in out[k]]
+    for (k, n, j) in pending:
+        ex1 = cf.ProcessPoolExecutor(max_workers=1)
+        try:
+            fut = ex1.submit(fn[k], j)
+            try:
+                n_, r_ = fut.result(timeout=limit + 60)
+                out[k][n] = r_
+            except cf.TimeoutError:
+                out[k][n] = _died(k, n, f"no result within {limit + 60}s (task abandoned)")
+            except Exception as e:  # noqa
+                out[k][n] = _died(k, n, f"worker process died while running this task ({type(e).__name__}: {e})")
+        finally:
+            _kill_workers(ex1)
+    return out["unit"], out["native"]
 
 
 def load_json(path, default):
@@ -125,11 +201,7 @@ def main(argv=None):
         return 3
     jobs = [(n, timeout_ms) for n in names]
     nat_names = [n for n in native.NATIVE if prop in native.NATIVE_PROPS.get(n, [])]
-    with mp.Pool(min(16, len(jobs) + len(nat_names))) as pool:
-        ar = pool.map_async(_run_one, jobs, chunksize=1)
-        nr = pool.map_async(_run_native, [(n, tier, seed) for n in nat_names], chunksize=1)
-        results = dict(ar.get())
-        natives = dict(nr.get())
+    results, natives = _run_all(jobs, [(n, tier, seed) for n in nat_names], tier)
 
     ledger = load_json(os.path.join(ROOT, "ledger.json"), {})
     known = load_json(os.path.join(ROOT, "known_findings.json"), {"findings": []})
@@ -303,10 +375,18 @@ def main(argv=None):
             json.dump(ev, f, indent=1, default=str)
 
     if a.update_ledger:
-        for n in names:
-            ledger[n] = {s: [d["status"], d.get("props"), d.get("kind")] for s, d in results[n]["sites"].items()}
-        with open(os.path.join(ROOT, "ledger.json"), "w") as f:
-            json.dump(ledger, f, indent=1, sort_keys=True)
+        import fcntl
+
+        # read-modify-write under a lock: several checks may update their own units at the same time
+        with open(os.path.join(ROOT, ".ledger.lock"), "w") as lk:
+            fcntl.flock(lk, fcntl.LOCK_EX)
+            ledger = load_json(os.path.join(ROOT, "ledger.json"), {})
+            for n in names:
+                ledger[n] = {s: [d["status"], d.get("props"), d.get("kind")] for s, d in results[n]["sites"].items()}
+            tmp = os.path.join(ROOT, "ledger.json.tmp")
+            with open(tmp, "w") as f:
+                json.dump(ledger, f, indent=1, sort_keys=True)
+            os.replace(tmp, os.path.join(ROOT, "ledger.json"))
 
     print(f"{prop} [{tier}] units={len(names)} obligations={n_ob} discharged={n_dis} violations={len(vio_lines)} known={len(known_hits)} undecided={len(undecided)} errors={len(errors)} wall={wall:.1f}s")
     if vio_lines:
